@@ -113,6 +113,15 @@ variant's parameters. The per-variant primitive is a parameter (trusted; C30 is 
 def verify (prim : Nat → List Nat → Nat → Bool) (pw : RVal) (cleartext : Nat) : Bool :=
   prim pw.tag pw.fields cleartext
 
+/-! ### Timestamps with a unit -/
+
+/-- serialise: nanoseconds since the epoch ↦ stored integer (truncating division, as
+`OffsetDateTime::unix_timestamp()` does for times after the epoch) -/
+def TimeCodec.store (c : TimeCodec) (nanos : Nat) : Nat := nanos / c.unitNs
+
+/-- deserialise: `OffsetDateTime::from_unix_timestamp(n)` -/
+def TimeCodec.load (c : TimeCodec) (stored : Nat) : Nat := stored * c.unitNs
+
 /-! ### Valuesets, entries -/
 
 /-- An in-memory valueset: which `ValueSetX` struct it is and its elements (opaque). -/
